@@ -289,6 +289,16 @@ def run_sequence(case3, mode, seq, doomed=None, ignore_failures=False, limit=900
     return r, order, steps, history, fails
 
 
+# hand-written histories ("doomed" = the first target of the first episode, expected to fail; then reset() and the targets)
+HISTORY_CORPUS = [
+    # fix 9ee0a43: once `a/o` was known insoluble (failed target a/f), installed a/c-2 — whose DEPEND a/o the resolver never resolves for a
+    # built package — was pruned from every later choice point: a/b (IDEPEND a/c) failed on the resolver with history, not on a fresh one
+    {"src": {"a/f-2": {"depend": "a/o"}}, "vdb": {"a/b-1": {"idepend": "a/c"}, "a/c-2": {"depend": "a/o"}}, "targets": ["a/b"], "mode": "upgrade", "doomed": "a/f"},
+    {"src": {"a/f-2": {"bdepend": "|| ( a/o a/n )"}, "a/d-3": {"rdepend": "a/n"}, "a/g-1": {}},
+     "vdb": {"a/d-2": {"pdepend": "a/e"}, "a/e-1": {"bdepend": "|| ( a/n a/o )", "rdepend": "a/g"}}, "targets": ["a/d"], "mode": "min", "doomed": "a/f"},
+]
+
+
 class _Bail(Exception):
     pass
 
@@ -456,7 +466,7 @@ def run(ctx):
         return ver_cmp(a.version, a.revision, b.version, b.revision)
 
     cases = []
-    for c in c15.CORPUS:
+    for c in c15.CORPUS + HISTORY_CORPUS:
         cases.append(dict(c, stream="corpus"))
     for i in range(ctx.n(130, 2000)):
         k = i % 8
@@ -533,6 +543,8 @@ def run(ctx):
             n = atom(rng.choice(seq)).key
             f, g = rng.sample(USE_FLAGS, 2)
             doomed = rng.choice([f"{n}[{f}]", f"{n}[-{f}]", f"{n}[{f},{g}]", f"{n}[{f},-{g}]", f"{n}::src2", f"{n}::vdb", f"{n}:1[{f}]"])
+        if "doomed" in case:
+            doomed = case["doomed"]
         ignore_failures = doomed is not None or rng.random() < 0.5
         for mode in ("upgrade", "min"):
             r, order, steps, history, fails = run_sequence(case3, mode, seq, doomed, ignore_failures)
